@@ -24,6 +24,10 @@ Init == \E T \in Types :
           \/ c = [t |-> T, v |-> Null0]
           \/ c = [t |-> T, v |-> [k |-> "unset"]]
           \/ (EmptyOk(T) /\ c = [t |-> T, v |-> [k |-> "empty"]])
+        \* vector elements whose length sits on the boundaries of the 1-byte / 2-byte vint length prefix
+        \/ \E n \in {127, 128, 129, 300} :
+             \/ c = [t |-> V(NT("blob"), 2), v |-> [k |-> "seq", vs |-> <<Raw([i \in 1..n |-> (i * 7) % 256]), Raw(<<1>>)>>]]
+             \/ c = [t |-> V(NT("text"), 2), v |-> [k |-> "seq", vs |-> <<Txt(<<98>>), Txt([i \in 1..n |-> 97])>>]]
 Next == UNCHANGED c
 Spec == Init /\ [][Next]_c
 \* sanity of the reference on every generated vector: the length prefix is the body length
